@@ -121,7 +121,7 @@ def spec_validity(ctx, s):
 # ------------------------------------------------------------------ SR
 def spec_to_rule(ctx, s):
     ctx.rule("SR", "for every interval and every name with a rounding spec in force in group g: the implementation active then carries params_key_for_rounding == g, or every path returns a grid literal / a column rounded with the same base and direction")
-    start = datetime.date(2015, 1, 1) if ctx.tier == "quick" else datetime.date(1980, 1, 1)
+    start = datetime.date(1980, 1, 1)
     iv = s.em.intervals(start)
     dates = sorted({f for f, _ in iv} | ({l for _, l in iv} if ctx.tier == "thorough" else set()))
     for d in dates:
@@ -155,7 +155,7 @@ def spec_to_rule(ctx, s):
                 else:
                     ctx.info(f"{r.qual}: pass-through of a column rounded on the same grid ({name}@{d})")
     ctx.extra_cov["SR_dates"] = len(dates)
-    ctx.floor("SR", 600)
+    ctx.floor("SR", 3000)
 
 
 def _pass_through(s, dag, d, r, params, spec):
